@@ -108,6 +108,9 @@ def code_for_string_token(name, value, location):
     assert name is not None
     assert value is not None
     assert len(value) >= 2
+    if (value[0] in "uU") and (len(value) >= 3):
+        # Accept the prefix for unicode strings as documented (a relic of Python 2).
+        value = value[1:]
     left_quote = value[0]
     right_quote = value[-1]
     if left_quote not in "\"'":
